@@ -75,7 +75,12 @@ func opName(i int, o bcOp) string { return fmt.Sprintf("%d:%s", i, o) }
 
 // runBcSchedule executes one schedule. prefix[i] selects the i-th decision (index into the
 // sorted list of parked goroutines); beyond the prefix the first parked goroutine is chosen.
-func runBcSchedule(ops []bcOp, prefix []int) *bcRun {
+func runBcSchedule(ops []bcOp, prefix []int) *bcRun { return runBcSchedulePolicy(ops, prefix, "") }
+
+// runBcSchedulePolicy: beyond the prefix, a goroutine parked at the yield point `holdAt` (e.g. "rcvf.select": a
+// receiver about to enter its select; "pub.select": a publisher about to enter its) is chosen only when nothing else
+// can move — the schedules in which a STALE receive function (or a publisher holding an old entry) acts last.
+func runBcSchedulePolicy(ops []bcOp, prefix []int, holdAt string) *bcRun {
 	r := &bcRun{Ops: ops, Outcome: map[string]string{}}
 	sch := NewSched()
 	utils.SetVerifHooks(sch.Trace, sch.Yield)
@@ -174,6 +179,13 @@ func runBcSchedule(ops []bcOp, prefix []int) *bcRun {
 		c := 0
 		if step < len(prefix) {
 			c = prefix[step]
+		} else if holdAt != "" {
+			for i, p := range ps {
+				if p.point != holdAt {
+					c = i
+					break
+				}
+			}
 		}
 		if c >= len(ps) {
 			c = len(ps) - 1 // diverged from the recorded schedule (select coin): clamp
